@@ -1272,3 +1272,11 @@ func calleeOnlyReadsSlices(c ssa.CallInstruction) bool {
 	}
 	return false
 }
+
+type ssaTypesFunc = types.Func
+
+func typesLookup(t types.Type, pkg *types.Package, name string) (*types.Func, []int, bool) {
+	o, idx, ind := types.LookupFieldOrMethod(t, false, pkg, name)
+	f, _ := o.(*types.Func)
+	return f, idx, ind
+}
